@@ -16,7 +16,7 @@ from vlib.core import *
 
 SRCS = ["harness/c10.cpp"]
 REPO_CPP = ["babylon/concurrent/*.cpp"]
-MODES = ("tl", "acc", "big", "fix-open-stop", "rr-tl", "rr-acc", "wrap")
+MODES = ("tl", "acc", "big", "fix-open-stop", "rr-tl", "rr-acc", "wrap", "life")
 
 
 def warm():
@@ -43,7 +43,10 @@ def features(lines, cap=0):
     """what happened in one trace (for the distribution and the non-triviality rule)"""
     f = {"stop_while_region_open": 0, "post_marker_wait": 0, "blocked_push": 0, "ring_wrap_pop": 0,
          "held_by_region": 0, "nosleep_pass": 0, "batch_retire": 0, "reclaims": 0, "retire_in_own_region": 0,
-         "blocked_across_version_wrap": 0}
+         "blocked_across_version_wrap": 0, "retire_without_collector": 0, "restart": 0, "noop_start_or_stop": 0}
+    collector_on = False
+    starts = 0
+    start_spawned = {}
     open_regions = set()
     own_region = {}
     wrap_ticket = {}
@@ -71,9 +74,20 @@ def features(lines, cap=0):
             elif e == "region_close":
                 open_regions.discard(w[3])
                 own_region.pop(t, None)
-            elif e in ("retire_begin", "retire_at_begin") and t in own_region:
-                f["retire_in_own_region"] = 1
+            elif e in ("retire_begin", "retire_at_begin"):
+                if t in own_region:
+                    f["retire_in_own_region"] = 1
+                if not collector_on:
+                    f["retire_without_collector"] = 1
+            elif e == "start":
+                start_spawned[t] = False
+            elif e == "start_end":
+                if start_spawned.get(t) is False:
+                    f["noop_start_or_stop"] = 1
+                start_spawned.pop(t, None)
             elif e == "stop_begin":
+                if not collector_on:
+                    f["noop_start_or_stop"] = 1
                 stopper = t
                 if open_regions:
                     f["stop_while_region_open"] = 1
@@ -83,6 +97,16 @@ def features(lines, cap=0):
                 f["reclaims"] += 1
                 if marker_popped and slept_after_marker:
                     f["post_marker_wait"] = 1
+        elif k == "spawn" and t in start_spawned:
+            start_spawned[t] = True
+            gc = w[2]
+            collector_on = True
+            starts += 1
+            if starts > 1:
+                f["restart"] = 1
+            marker_ticket, marker_popped, slept_after_marker, stopper = None, False, False, None
+        elif k == "join" and w[2] == gc:
+            collector_on = False
         elif k == "rmw" and w[3] == "q.push":
             if t == stopper and marker_ticket is None:
                 marker_ticket = int(w[5])
@@ -169,7 +193,7 @@ def run(ctx):
         "fewer than 2^64 - 1 ticks (the model's epochs are unbounded naturals; UINT64_MAX is the marker / idle value)",
     ]
     ctx.assumptions += [
-        "client contract: start() was called; reclaimer objects are distinct; retire(r, e) is given an e returned by an earlier tick(); stop() is called once",
+        "client contract: reclaimer objects are distinct; retire(r, e) is given an e returned by an earlier tick(); no stop() while another stop() is in progress; whoever retires eventually start()s the collector (stop() / the destructor with no collector thread invoke nothing); at most `capacity` retirements while no collector runs (more would block for ever)",
         "termination of stop() (gc_stop_terminates, gc_stop_terminates_regions_close, gc_stop_returns_with_all_invoked) is proved under explicit hypotheses on the execution from some moment on: client contract (stop() called, no retire in flight or starting, no tick), weak fairness of the collector thread (always enabled until finished: gc_collector_always_enabled) and of the stopping thread, capacity >= 1, and every critical region entered before the last tick eventually stores its slot and closes (regions entered later are unconstrained); without the last one stop() legitimately waits forever",
         "a retire() that has not obtained its queue ticket before stop() obtains the marker's ticket is outside the property (the task is queued behind the marker: popped in the same callback it is skipped, otherwise it stays queued)",
     ]
@@ -202,6 +226,7 @@ def run(ctx):
     plan = [("tl", n, {}), ("acc", n, {}), ("rr-tl", n, {}), ("rr-acc", n, {}),
             ("tl", n // 2, {"VRT_STRATEGY": "pct"}), ("acc", n // 2, {"VRT_STRATEGY": "pct"}),
             ("rr-tl", n // 2, {"VRT_STRATEGY": "pct"}), ("rr-acc", n // 2, {"VRT_STRATEGY": "pct"}),
+            ("life", n, {}), ("life", n // 2, {"VRT_STRATEGY": "pct"}),
             ("fix-open-stop", n // 4, {}), ("wrap", n // 8, {}), ("big", max(20, n // 20), {})]
 
     def enough():
@@ -230,13 +255,15 @@ def run(ctx):
     ctx.cov["traces_validated_against_impl"] = dist["replay_ok"]
     ctx.cov["rule"] = ("one case = one seeded program (queue capacity 1-8 [big: 128/256], 1-3 retiring threads x 1-6 operations among retire(r), "
                        "[rr-*: 1-2 reader-retirer threads that retire inside their own region and then take nested locks of depth 2-3 after that retirement / a tick; "
-                       "wrap: capacity 1-2 with the ring preset two rounds before the 16-bit slot version wraps, a held batch + a full ring + a retire that must block across the wrap] "
+                       "wrap: capacity 1-2 with the ring preset two rounds before the 16-bit slot version wraps, a held batch + a full ring + a retire that must block across the wrap; "
+                       "life: 1-3 cycles of [0-3 retirements with no collector thread, start(), 0-2 retiring threads + 0-1 region thread, stop()] on one collector, default "
+                       "capacity of one slot in a third of the cases, redundant start() / stop()] "
                        "tick + retire(r,e), batch retirement [big: 60-180 each], 0-2 region threads x 1-3 regions held 0-42 ms of virtual time, thread-local "
                        "or Accessor style (opened by one thread, closed by another), stop() after the retiring threads returned plus a 0-25 ms delay, "
                        "so often while regions are open) under one seeded schedule (random with 5 stickiness levels, or PCT); non-trivial = the trace shows at "
                        "least one of: stop() called while a region is open, tasks reclaimed only after the collector slept with the marker already consumed, "
                        "a retire blocked on a full queue, a try_pop_n split by the ring end, a pass held back by a pinned slot, a pass without sleep, a retirement inside the retiring thread's own region, "
-                       "a retire blocked across the slot-version wrap; "
+                       "a retire blocked across the slot-version wrap, a retirement while no collector thread exists, a second start() after a stop(); "
                        "distinct by trace hash")
     ctx.cov["samples"] = samples or [["<no sample>"]]
 
